@@ -185,7 +185,7 @@ def check(ctx):
                 cases.append((prim, init, "f32", ops, False))
     ctx.extra["exhaustive_depth"] = depth
     ctx.extra["exhaustive_sequences"] = len(cases)
-    nrand = 250 if ctx.tier == "quick" else 4000
+    nrand = 1500 if ctx.tier == "quick" else 6000
     for _ in range(nrand):
         prim = g.choice(list(PRIMS))
         init = g.choice([None, None, "f32", "f64", "f16", "bf16", "i64"])
